@@ -283,6 +283,18 @@ pub assume_specification<F: core::str::FromStr>[ str::parse::<F> ](s: &str) -> (
         r is Ok <==> parse_spec::<F>(s@) is Some,
         r is Ok ==> Some(r->Ok_0) == parse_spec::<F>(s@);
 
+/// std functions that PANIC on a bad argument get their panic condition as a precondition, so that code which starts
+/// using them is checked (a small catalogue; anything not listed makes the run inconclusive, never an alarm)
+pub uninterp spec fn is_char_boundary_spec(s: Seq<char>, byte_index: usize) -> bool;
+pub assume_specification[ String::truncate ](s: &mut String, new_len: usize)
+    requires is_char_boundary_spec(old(s)@, new_len);
+pub assume_specification[ String::remove ](s: &mut String, idx: usize) -> (c: char)
+    requires is_char_boundary_spec(old(s)@, idx) && idx < utf8_encode(old(s)@).len();
+pub assume_specification[ String::split_off ](s: &mut String, at: usize) -> (r: String)
+    requires is_char_boundary_spec(old(s)@, at);
+pub assume_specification[ String::insert ](s: &mut String, idx: usize, ch: char)
+    requires is_char_boundary_spec(old(s)@, idx);
+
 /// ASSUMPTION: printing does not panic (it can, on a closed stdout; not modelled)
 pub assume_specification[ std::io::_print ](_0: core::fmt::Arguments<'_>);
 pub assume_specification[ std::io::_eprint ](_0: core::fmt::Arguments<'_>);
@@ -709,6 +721,8 @@ pub tracked struct STrace {
     pub ghost cur: Option<(PktV, std::net::SocketAddr)>,
     /// whether the source of that datagram owned a transfer (single-port mode) when it arrived
     pub ghost known: bool,
+    /// size of the shared single-port receive buffer when that datagram arrived
+    pub ghost lbs_mark: usize,
 }
 
 /// exactly one datagram: ERROR `code` to `to` from the listening socket, nothing else
@@ -798,9 +812,18 @@ pub open spec fn req_c09(evs: Seq<SEv>, kind: XferKind, req_opts: Seq<TransferOp
             && (kind is Send ==> check == (req_opts.len() > 0))))
 }
 
-/// SPECIFICATION (C16, C13): a started transfer repeats data-phase datagrams `dup + 1` times and uses the configured clean-on-error policy
-pub open spec fn req_c16(evs: Seq<SEv>, clean: bool, dup: u8) -> bool {
-    forall|i: int| 0 <= i < evs.len() ==> (#[trigger] evs[i] matches SEv::Spawned { rep, clean: c, .. } ==> rep == dup + 1 && c == clean)
+/// SPECIFICATION (C16): a started transfer repeats data-phase datagrams `dup + 1` times
+pub open spec fn req_c16(evs: Seq<SEv>, dup: u8) -> bool {
+    forall|i: int| 0 <= i < evs.len() ==> (#[trigger] evs[i] matches SEv::Spawned { rep, .. } ==> rep == dup + 1)
+}
+/// SPECIFICATION (C13): a started transfer uses the configured clean-on-error policy
+pub open spec fn req_c13(evs: Seq<SEv>, clean: bool) -> bool {
+    forall|i: int| 0 <= i < evs.len() ==> (#[trigger] evs[i] matches SEv::Spawned { clean: c, .. } ==> c == clean)
+}
+/// SPECIFICATION (C12, single-port mode): the listening socket's receive buffer is never smaller than the block size of a
+/// transfer that has been started (it is shared by all running transfers, so it must never shrink)
+pub open spec fn req_c12_buffer(evs: Seq<SEv>, single_port: bool, buffer: usize) -> bool {
+    single_port ==> forall|i: int| 0 <= i < evs.len() ==> (#[trigger] evs[i] matches SEv::Spawned { blk, .. } ==> blk <= buffer)
 }
 
 pub struct ServerCfg { pub send_dir: Seq<char>, pub recv_dir: Seq<char>, pub read_only: bool, pub overwrite: bool, pub clean: bool, pub dup: u8 }
@@ -842,7 +865,8 @@ pub open spec fn listen_c09(evs: Seq<SEv>, cur: Option<(PktV, std::net::SocketAd
         None => forall|i: int| 0 <= i < evs.len() ==> !(#[trigger] evs[i] is Sent),
     }
 }
-pub open spec fn listen_c16(evs: Seq<SEv>, c: ServerCfg) -> bool { req_c16(evs, c.clean, c.dup) }
+pub open spec fn listen_c16(evs: Seq<SEv>, c: ServerCfg) -> bool { req_c16(evs, c.dup) }
+pub open spec fn listen_c13(evs: Seq<SEv>, c: ServerCfg) -> bool { req_c13(evs, c.clean) }
 /// C12: a well-formed non-request datagram is forwarded to the transfer owned by its own source endpoint and to nobody
 /// else; an endpoint that owns no transfer (or whose transfer has ended) is answered with ERROR 4
 pub open spec fn listen_c12(evs: Seq<SEv>, cur: Option<(PktV, std::net::SocketAddr)>, known: bool) -> bool {
